@@ -341,6 +341,13 @@ class Engine:
                 it.exec(st, env)
         return env
 
+    def eval_lets(self, it, c, env, pre=False):
+        """let-definitions; in the pre-state those mentioning `result` are simply not available yet"""
+        for nm, ex in c.let.items():
+            if pre and 'result' in ex:
+                continue
+            env.vars[nm] = self.eval_clause(it, ex, env)
+
     def eval_clause(self, it, expr, env):
         node = ast.parse(expr, mode='eval').body
         it.p.spec_mode += 1
@@ -401,8 +408,7 @@ class Engine:
         p = it.p
         m, ci, node, kind = self.find_target(c)
         env = self.spec_env(it, c, m, vals)
-        for nm, ex in c.let.items():
-            env.vars[nm] = self.eval_clause(it, ex, env)
+        self.eval_lets(it, c, env, pre=True)
         guard = True
         for nm, ex in c.requires:
             rv = self.eval_clause(it, ex, env)
@@ -424,8 +430,7 @@ class Engine:
         memo = {}
         old_vals = {k: self.snapshot(v, memo) for k, v in vals.items()}
         old_env = self.spec_env(it, c, m, old_vals)
-        for nm, ex in c.let.items():
-            old_env.vars[nm] = self.eval_clause(it, ex, old_env)
+        self.eval_lets(it, c, old_env, pre=True)
         # havoc
         for entry in c.modifies:
             o, field, builder = self.resolve_mod_target(it, entry, env)
@@ -572,8 +577,7 @@ class Engine:
             path.inputs = vals
             path.contract = c
             env = self.spec_env(it, c, m, vals)
-            for nm, ex in c.let.items():
-                env.vars[nm] = self.eval_clause(it, ex, env)
+            self.eval_lets(it, c, env, pre=True)
             for nm, ex in c.requires:
                 path.assume(self.eval_clause(it, ex, env))
             for hx in c.hints:
@@ -596,8 +600,7 @@ class Engine:
         old_vals = {k: self.snapshot(v, memo) for k, v in vals.items()}
         path.inputs = old_vals         # the pre-state is what a counter-model must be replayed from
         old_env = self.spec_env(it, c, m, old_vals)
-        for nm, ex in c.let.items():
-            old_env.vars[nm] = self.eval_clause(it, ex, old_env)
+        self.eval_lets(it, c, old_env, pre=True)
         pairs = memo.get('_pairs', [])
         old_to_live = {id(o): l for (l, o) in pairs}
         # run the body
